@@ -61,6 +61,7 @@ type variant struct {
 	Env     []string
 	Verbose bool  // -test.v (needed to attribute race reports to sub-tests)
 	Procs   []int // per-shard GOMAXPROCS values (cycled); empty = inherit
+	Pkg     string // test package of this variant ("" = the property's own)
 }
 
 type propCfg struct {
@@ -254,7 +255,9 @@ func runProp(id, tier string, rp *replayReq) int {
 		out string
 	}
 	// variants with the same (race, shim) flags share one binary
-	bkey := func(v variant) string { return fmt.Sprintf("race=%v-shim=%v", v.Race, v.Shim != "") }
+	bkey := func(v variant) string {
+		return fmt.Sprintf("race=%v-shim=%v-%s", v.Race, v.Shim != "", strings.NewReplacer("/", "_", ".", "").Replace(v.Pkg))
+	}
 	keyed := map[string]*built{}
 	var wg sync.WaitGroup
 	for _, v := range vars {
@@ -276,7 +279,11 @@ func runProp(id, tier string, rp *replayReq) int {
 			} else if altMod != "" {
 				args = append(args, "-modfile="+altMod)
 			}
-			args = append(args, p.Pkg)
+			if v.Pkg != "" {
+				args = append(args, v.Pkg)
+			} else {
+				args = append(args, p.Pkg)
+			}
 			cmd := exec.Command(goTool, args...)
 			cmd.Dir = verifDir
 			out, err := cmd.CombinedOutput()
